@@ -12,9 +12,24 @@
   responses: {"out":"ok","gen":text|null,"read":R}; R = {"out":"ok","nodes":[…],"edges":[[id,{"$set":[…]}]…]}
   | {"out":"err:lib"|"err:type"|"err:value"} | {"out":"unmodelled"}.
   Labels that are not int/str, delimiters or comment tokens of more than one character: {"out":"unmodelled"}.
+
+  whole-file requests for the two JSON formats (C11/Hif.lean: `json.dumps`/`json.loads` = `idLayer` around the
+  C10 dict converters).  They take EXACTLY the request shape of the C10 driver's "hif_dict" / "hypergraph_dict"
+  requests and answer EXACTLY what the C10 driver answers for them:
+    {"f":"hif",      "net":{"cls":"hg"|"dhg"|"sc","nodes":[…],"edges":[[eid,[…]]…] | [[eid,[tail…],[head…]]…],
+                            "nattr":[[id,attrs]…],"eattr":[[id,attrs]…],"gattr":attrs}}
+        computed as readHif (idLayer Hif) (writeHif (idLayer Hif) net)
+        → {"out":"ok","rep":<the HIF document>,"rt":<network read back; with "kept" for cls "sc">}
+    {"f":"jsonfull", "net":{… cls "hg"|"sc" …}, "nodetype":"int"|"none"|"mixed", "edgetype":"int"|"none"|"mixed"}
+        computed as readJson (idLayer HDict) nodetype edgetype (writeJson (idLayer HDict) str net)
+        → {"out":"ok","rep":<the hypergraph dict>,"rt":<network read back>} | {"out":"err:lib"|"err:type"}
+  both: {"out":"unmodelled"} for non-atomic IDs or a "using" option, bad-op for an ill-typed request
+  (and for "jsonfull" on a directed network).
 -/
 import XgiModel.Proto
 import XgiModel.C11.IO
+import XgiModel.C11.Hif
+import XgiModel.C10.Drive
 open Lean Xgi.Proto
 
 namespace Xgi.C11.Drive
@@ -94,9 +109,50 @@ def textJ (t : Text) : Json := Json.str (String.ofList t)
 def okResp (gen : Json) (read : Json) : Json :=
   Json.mkObj [("out", Json.str "ok"), ("gen", gen), ("read", read)]
 
+/-- the request's network, exactly as the C10 driver reads it: `none` = ill-typed (bad-op),
+    `some none` = outside the model (`using` option, non-atomic IDs) -/
+def fileSrc? (j : Json) : Option (Option (C10.ANet ⊕ C10.ADiNet)) :=
+  if (getField? j "using").isSome && (getField? j "using") != some Json.null then some none else
+  match (getField? j "net").bind C10.Drive.src? with
+  | none => none
+  | some src => if !C10.Drive.atomsOnly src then some none else some (some src)
+
+/-- "hif": `read_hif(write_hif(N))` through the identity JSON layer; same answer as C10's "hif_dict" -/
+def hifFile (src : C10.ANet ⊕ C10.ADiNet) : Json :=
+  let J := idLayer C10.Hif
+  let doc := writeHif J src
+  let rt := match (J.loads doc).ntype, readHif J doc with
+    | .sc, .inl r => C10.Drive.aNetJson r [("kept", natJson (C10.keptCount (C10.fromHifU (J.loads doc))))]
+    | _, r => C10.Drive.resultJson r
+  C10.Drive.ok (C10.Drive.hifJson (J.loads doc)) rt
+
+/-- "jsonfull": `read_json(write_json(N), nodetype, edgetype)` through the identity JSON layer; same answer as
+    C10's "hypergraph_dict" -/
+def jsonFile (j : Json) (src : C10.ANet ⊕ C10.ADiNet) : Json :=
+  match src with
+  | .inr _ => badOp
+  | .inl a =>
+    match (getStr? j "nodetype").bind C10.Drive.uncast?, (getStr? j "edgetype").bind C10.Drive.uncast? with
+    | some un, some ue =>
+      let J := idLayer C10.HDict
+      match writeJson J C10.Drive.cast a with
+      | .error e => C10.Drive.errJson e
+      | .ok doc => match readJson J un ue doc with
+        | .error e => C10.Drive.errJson e
+        | .ok r => C10.Drive.ok (C10.Drive.hdictJson (J.loads doc)) (C10.Drive.aNetJson r)
+    | _, _ => badOp
+
 def handleReq (j : Json) : Option Json := do
   let f ← getStr? j "f"
   match f with
+  | "hif" =>
+    match ← fileSrc? j with
+    | none => pure unmodelled
+    | some src => pure (hifFile src)
+  | "jsonfull" =>
+    match ← fileSrc? j with
+    | none => pure unmodelled
+    | some src => pure (jsonFile j src)
   | "edgelist" =>
     let text ← getStr? j "text"
     let ty ← tyArg? j "nodetype"
